@@ -68,6 +68,7 @@ fn main() {
         // directed programs that are part of every run: two equally eligible candidates on diverging paths
         let mut fixed: Vec<Recipe> = Recipe::always_diverge();
         fixed.extend(Recipe::always_isolated());
+        fixed.extend(Recipe::always_uaf());
         let n_fixed = fixed.len();
         for i in 0..n_inputs + n_fixed {
             let mut rc = if i < n_fixed {
